@@ -589,7 +589,9 @@ func (c *handlerCtx) bindReply(header Header) interface{} {
 	c.callCmd = _callCmd.(*callCmd)
 
 	// unlock: handleReply
+	vp("reply.found", c.sess, int64(header.Seq()), 0)
 	c.callCmd.mu.Lock()
+	vp("reply.locked", c.sess, int64(header.Seq()), 0)
 	c.input.SetServiceMethod(c.callCmd.output.ServiceMethod())
 	c.swap = c.callCmd.swap
 	c.callCmd.inputBodyCodec = c.GetBodyCodec()
@@ -629,6 +631,7 @@ func (c *handlerCtx) handleReply() {
 			c.sess.printRunLog(c.RealIP(), c.callCmd.cost, c.input, c.callCmd.output, typeCallLaunch)
 		}
 		// lock: bindReply
+		vp("reply.done", c.sess, int64(c.input.Seq()), 0)
 		c.callCmd.mu.Unlock()
 	}()
 	if c.callCmd.stat.OK() {
@@ -837,6 +840,7 @@ func (c *callCmd) CostTime() time.Duration {
 
 func (c *callCmd) done() {
 	c.sess.callCmdMap.Delete(c.output.Seq())
+	vp("cmd.done", c.sess, int64(c.output.Seq()), 0)
 	c.callCmdChan <- c
 	close(c.doneChan)
 	// free count call-launch
@@ -850,6 +854,7 @@ func (c *callCmd) cancel(reason string) {
 	} else {
 		c.stat = statConnClosed
 	}
+	vp("cmd.cancel", c.sess, int64(c.output.Seq()), 0)
 	c.callCmdChan <- c
 	close(c.doneChan)
 	// free count call-launch
